@@ -99,14 +99,14 @@ fn urlencoded_entry<T: for<'de> Deserialize<'de>, const N: usize>() {
     std::mem::forget(r);
 }
 
-// @verif prop=C08 tier=quick mem=20 bounds="urlencoded from_bytes into {key: u8}: input 0..=4 arbitrary bytes"
+// @verif prop=C08 tier=quick mem=12 bounds="urlencoded from_bytes into {key: u8}: input 0..=4 arbitrary bytes"
 #[kani::proof]
 #[kani::stub(alloc::fmt::format, stubs::format_stub)]
 #[kani::stub(core::str::from_utf8, stubs::from_utf8_model)]
 #[kani::unwind(7)]
 fn c08_urlencoded_u8() { urlencoded_entry::<u8, 4>() }
 
-// @verif prop=C08 tier=quick mem=20 bounds="urlencoded from_bytes into {key: bool}: input 0..=4 arbitrary bytes"
+// @verif prop=C08 tier=thorough mem=12 bounds="urlencoded from_bytes into {key: bool}: input 0..=4 arbitrary bytes"
 #[kani::proof]
 #[kani::stub(alloc::fmt::format, stubs::format_stub)]
 #[kani::stub(core::str::from_utf8, stubs::from_utf8_model)]
